@@ -20,9 +20,9 @@ CHECKS = {
     text="Per-operation contracts over arbitrary canonical states make the history induction trivial; the vector length is bounded: every length pair in [0,3]^2 (thorough [0,4]^2 where the cap allows) with unconstrained 64-bit coordinates, aliasing cases, all constructors/assignments/clear with symbolic length <= 4. Bounded, not proof.",
     note="Assumes the stub <vector>/<set> are a faithful contract of the standard containers; -Dauto=const_iterator and -Dprivate=public are the only substitutions. add() excluded (unreachable, asserts on *end())."),
  "C18": dict(
-    engine="E1+E3", category="other", design_ref="DESIGN.md 4/C18, 3 (K19-K22)",
-    technique="CBMC DFCC contracts on extracted fp.hpp functions: full-domain proof of the loop-free paths and of get_mult_inverse against ext_gcd's contract; unwinding-bounded Euclid loop and is_prime; native exhaustive grids incl. cpp_int; native replay of counterexamples",
-    text="Proof over all int64 for ext_gcd's zero-argument paths and for get_mult_inverse modulo ext_gcd's contract; bounded (unwinding) for the Euclid loop and is_prime; bounded native enumeration for long and cpp_int incl. SpVecFP histories. Found and repaired: ext_gcd(a<0,0), is_prime(2).",
+    engine="E1+E3", category="other", design_ref="DESIGN.md 4/C18, 3 (K19-K22, K22b), 10.16",
+    technique="CBMC DFCC contracts on extracted fp.hpp functions: full-domain proof of the loop-free paths and of get_mult_inverse against ext_gcd's contract; loop contracts with quantified invariants on the extracted SpVecFP::operator+ (all five loops; <=2/3 entries, every index, value and modulus below 2^15); unwinding-bounded Euclid loop, is_prime and the other SpVecFP operations; native exhaustive grids incl. cpp_int; native replay of counterexamples",
+    text="Proof over all int64 for ext_gcd's zero-argument paths and for get_mult_inverse modulo ext_gcd's contract; SpVecFP::operator+ proved for operands of <=2/3 entries (canonical result, every coordinate = (a+b) mod p, nothing lost); bounded (unwinding) for the Euclid loop, is_prime and the remaining SpVecFP operations; bounded native enumeration for long and cpp_int incl. SpVecFP histories. Found and repaired: ext_gcd(a<0,0), is_prime(2).",
     note="Machine integers treated as such (arguments > T_MIN); congruence step p*y mod p = 0 and all cpp_int behaviour only checked natively; libm sqrt assumed to be floor sqrt."),
  "C10": dict(
     engine="E1+E3", category="other", design_ref="DESIGN.md 4/C10, 3 (K24,K25)",
